@@ -32,6 +32,7 @@ type Env struct {
 	fallback    func(name string) (bind, bool)
 	inOld       bool
 	pkg         *types.Package
+	callerNames map[string]ssa.Value // at-call clauses: the calling function's variables at the call
 }
 
 func drObject(dr *ssa.DebugRef) types.Object {
@@ -574,6 +575,15 @@ func (v *fnVC) trSelect(x *Select, env *Env) (T, types.Type) {
 		}
 		return app(structName(n)+"_"+f, base), fty
 	}
+	if st, ok := bty.Underlying().(*types.Struct); ok {
+		// field of an external struct value (reflect.StructField, reflect.Method, ...): the same uninterpreted
+		// function of the struct value that the code's own field reads use
+		if f, fty := findField(st, x.Field); f != "" {
+			fn := "xf_" + sanitize(v.P.sortOf(bty)+"_"+f)
+			v.P.add(fn, fmt.Sprintf("(declare-fun %s (%s) %s)", fn, v.P.sortOf(bty), v.P.sortOf(fty)))
+			return app(fn, base), fty
+		}
+	}
 	panic("select " + x.Field + " on " + bty.String())
 }
 
@@ -625,6 +635,19 @@ func (v *fnVC) trCall(x *CallE, env *Env) (T, types.Type) {
 		t, ty := v.tr(x.Args[0], env)
 		env.inOld = saved
 		return t, ty
+	case "caller": // caller(x): inside an at-call clause, the calling function's variable x at the call
+		if id, ok := x.Args[0].(*Ident); ok && env.callerNames != nil {
+			if sv, ok := env.callerNames[id.Name]; ok {
+				return v.val(sv), sv.Type()
+			}
+			for _, p := range v.fn.Params {
+				if p.Name() == id.Name {
+					return v.vals[p], p.Type()
+				}
+			}
+			panic("caller(" + id.Name + "): no such variable at this call")
+		}
+		panic("caller() needs a variable name inside an at-call clause")
 	case "entry": // entry(p): value of parameter p at function entry
 		if id, ok := x.Args[0].(*Ident); ok {
 			for _, p := range v.fn.Params {
